@@ -327,6 +327,16 @@ def unit_set_attacher(slot, what):
             path.heap[('f', o, '_cleanup')] = trig
         react = VOpaque('reactor', 2)
         arg = a1 if what == 'install' else NONE
+        if what == 'install_priority':
+            # the library's own PriorityAttacher, installed before any sub-attacher has been added to it
+            import txtorcon.attacher as at
+            a1 = ex.new_inst(path, at.PriorityAttacher)
+            path.heap[('f', a1.oid, '_attacher_to_entry')] = ex.new_dict(path, [])
+            path.heap[('f', a1.oid, '_attacher_heap')] = ex.new_list(path, [])
+            arg = a1
+            what_ = 'install'
+        else:
+            what_ = what
         ctx.cover('pre_satisfiable', path)
         g = ex.getattr_v(path, st, 'set_attacher')
         for p, r in ex.call(g[0][0], g[0][1], [arg, react], {}):
@@ -340,13 +350,13 @@ def unit_set_attacher(slot, what):
                     return False
                 k, v = sent[0][1]
                 return concrete_of(k) == (True, '__LeaveStreamsUnattached') and concrete_of(v) in ((True, val), (True, str(val)))
-            if what == 'install' and slot == 'other':
+            if what_ == 'install' and slot == 'other':
                 ctx.oblige('post.second_different_attacher_refused', p,
                            B(raised and isinstance(r.exc, VInst) and r.exc.cls is RuntimeError and slot_now is a2 and not sent and not rc),
                            clause='installing a second, different attacher is refused')
-            elif what == 'install' and slot == 'same':
+            elif what_ == 'install' and slot == 'same':
                 ctx.oblige('post.same_attacher_again_is_a_noop', p, B(not raised and slot_now is a1 and not sent and not rc))
-            elif what == 'install':
+            elif what_ == 'install':
                 trig_ok = (len(rc) == 1 and rc[0][0] == 'addSystemEventTrigger' and len(rc[0][1]) == 3
                            and concrete_of(rc[0][1][0]) == (True, 'before') and concrete_of(rc[0][1][1]) == (True, 'shutdown')
                            and isinstance(rc[0][1][2], VFunc) and rc[0][1][2].qualname.endswith('undo_attacher'))
@@ -606,6 +616,7 @@ def units():
            ('C09/_CircuitAttacher.attach_stream_failure', unit_via_failure())]
     us += [('C09/issue_stream_attach@%s' % a, unit_issue(a)) for a in ANSWERS]
     us += [('C09/set_attacher@%s/%s' % (s, a), unit_set_attacher(s, a)) for s in SLOTS for a in ARGS]
+    us.append(('C09/set_attacher@empty/install_priority', unit_set_attacher('empty', 'install_priority')))
     us += [('C09/_stream_update@%s' % ('known' if k else 'new'), unit_stream_update(k)) for k in (False, True)]
     us += [('C09/PriorityAttacher.attach_stream@%d' % n, unit_priority(n)) for n in (1, 2, 3)]
     return us
